@@ -154,12 +154,12 @@ theorem value_postinc (f : Nat) (n : Bytes) (op : UnOp) (rest : List Tok) (hn : 
     simp [lvAssign, lvTernary, lvPower, lvUnary, lvValue, UnOp.sym, isArithName, hn]
 
 theorem value_preinc (f : Nat) (n : Bytes) (op : UnOp) (rest : List Tok)
-    (hop : op = .inc ∨ op = .dec) (h : NoPost rest) :
+    (hop : op = .inc ∨ op = .dec) (hn : validName n = true) (h : NoPost rest) :
     parseLevel (f + 2) 15 (.sym op.sym :: .word n :: rest) =
       some (some (.unary op false (.word n)), rest) := by
   rw [parseLevel]
   rcases hop with rfl | rfl <;>
-    simp [lvAssign, lvTernary, lvPower, lvUnary, lvValue, UnOp.sym, value_word f n rest h]
+    simp [lvAssign, lvTernary, lvPower, lvUnary, lvValue, UnOp.sym, value_word f n rest h, isArithName, hn]
 
 theorem value_paren (f : Nat) (x : Expr) (inner rest : List Tok) (h : NoPost rest)
     (hin : parseLevel f 0 (inner ++ .rparen :: rest) = some (some x, .rparen :: rest)) :
@@ -472,7 +472,7 @@ theorem S1_incdec (op : UnOp) (post : Bool) (n : Bytes) (hop : op = .inc ∨ op 
       intro f hf
       obtain ⟨f', rfl⟩ : ∃ f', f = f' + 2 := ⟨f - 2, by omega⟩
       rw [e1]
-      exact value_preinc f' n op rest hop hsf.noPost
+      exact value_preinc f' n op rest hop hn hsf.noPost
     have := from_value h15 (by omega)
       (by intro t r ht; rw [e1] at ht; simp at ht; rw [← ht.1]; rcases hop with rfl | rfl <;> rfl)
       hl15 hs
